@@ -137,12 +137,15 @@ Definition show_action (a : action) : sx :=
   | AHandler line => L [sT "h"; A line]
   | AHandlerTask id => L [sT "ht"; sNat id]
   | AUpload id line c => L [sT "up"; sNat id; A line; A c]
+  | AUploadCall line c => L [sT "upc"; A line; A c]
   | AOutOfModel => L [sT "oom"]
   end.
-(* cfg: has_mw has_upload peer_ip fp hres ip6table *)
+(* cfg: has_mw has_upload peer_ip fp hres ip6table up_call_fails
+   (up_call_fails: () = the upload handler's call returns an awaitable, (msg) = it fails with that message before one
+   exists; absent = ()) *)
 Definition server_run (cfg evs : sx) : list (list action * bool) :=
   ServerProto.run (ip6_of_table (nth_sx 5 cfg)) (fun _ => read_hres (nth_sx 4 cfg))
-    (as_bool (nth_sx 0 cfg)) (as_bool (nth_sx 1 cfg)) (as_str (nth_sx 2 cfg)) (read_ostr (nth_sx 3 cfg))
+    (as_bool (nth_sx 0 cfg)) (as_bool (nth_sx 1 cfg)) (read_ostr (nth_sx 6 cfg)) (as_str (nth_sx 2 cfg)) (read_ostr (nth_sx 3 cfg))
     init (map read_sevent (as_list evs)).
 
 Definition read_action (x : sx) : action :=
@@ -153,13 +156,14 @@ Definition read_action (x : sx) : action :=
   else if eqb tag (lit "h") then AHandler (as_str (nth_sx 1 x))
   else if eqb tag (lit "ht") then AHandlerTask (N.to_nat (as_N (nth_sx 1 x)))
   else if eqb tag (lit "up") then AUpload (N.to_nat (as_N (nth_sx 1 x))) (as_str (nth_sx 2 x)) (as_str (nth_sx 3 x))
+  else if eqb tag (lit "upc") then AUploadCall (as_str (nth_sx 1 x)) (as_str (nth_sx 2 x))
   else AOutOfModel.   (* unknown tags (e.g. "escape") never compare equal to a model action *)
 Definition read_obs (x : sx) : ServerTrace.obs :=
   map (fun e => (map read_action (as_list (nth_sx 0 e)), as_bool (nth_sx 1 e))) (as_list x).
 Definition read_cfg (x : sx) : ServerTrace.cfg :=
   {| ServerTrace.c_mw := as_bool (nth_sx 0 x); ServerTrace.c_upload := as_bool (nth_sx 1 x);
      ServerTrace.c_ip := as_str (nth_sx 2 x); ServerTrace.c_fp := read_ostr (nth_sx 3 x);
-     ServerTrace.c_hres := read_hres (nth_sx 4 x) |}.
+     ServerTrace.c_hres := read_hres (nth_sx 4 x); ServerTrace.c_upfail := read_ostr (nth_sx 6 x) |}.
 
 (* ---- client protocol ---- *)
 Definition decode_of_table (t : sx) (label body : str) : option str :=
